@@ -173,6 +173,31 @@ Example C06_hourly_refuted_half_hour_shift :
   outcome_of as_coded w_half_hour_shift = Err EIndex /\ outcome_of repaired w_half_hour_shift = Err EIndex.
 Proof. vm_compute. split; reflexivity. Qed.
 
+(* ---- the guards are necessary in general, not only on the witnesses *)
+(* D11: without usage values EVERY frame containing a short or a long day makes the unchanged predict fail *)
+Theorem C06_hourly_without_observed_always_fails :
+  forall (V : Type) (mean2 : V -> V -> V) (feat : hour_stamp -> V) (regress : list (list V) -> list V) days pat,
+  Forall2 unobserved_clock days pat -> forallb kind_ok pat = true -> existsb is_change pat = true ->
+  exists e, hourly_predict mean2 feat regress as_coded days = Err e.
+Proof. intros V. exact (@hourly_predict_unobserved_fails V). Qed.
+Print Assumptions C06_hourly_without_observed_always_fails.
+
+(* D18: a short or long day whose date label cannot be resolved always makes the unchanged _get_dst_indices fail *)
+Theorem C06_unresolvable_label_always_fails : forall days pat,
+  Forall2 observed_clock days pat -> forallb kind_ok pat = true ->
+  Exists (bad_label is_change) (combine days pat) ->
+  exists e, get_dst_indices as_coded days = Err e.
+Proof. exact get_dst_indices_bad_label. Qed.
+Print Assumptions C06_unresolvable_label_always_fails.
+Example C06_nonvacuous_necessity :
+  Forall2 unobserved_clock w_no_observed w_pat_dst /\ existsb is_change w_pat_dst = true
+  /\ Forall2 observed_clock w_midnight w_pat_midnight
+  /\ Exists (bad_label is_change) (combine w_midnight w_pat_midnight).
+Proof.
+  split; [repeat constructor|]. split; [reflexivity|]. split; [repeat constructor|].
+  apply Exists_cons_tl. apply Exists_cons_hd. split; [reflexivity | discriminate].
+Qed.
+
 (* the guard of C06_transform_dst_eq_spec is needed: a day repeating hour 23 directly followed by a day skipping
    hour 0 puts REMOVE and INTERPOLATE on the same index, and slicing and loop differ *)
 Example C06_eq_spec_guard_needed :
